@@ -293,7 +293,39 @@ func ruleDiskUse(r *core.Reporter) {
 	if call == nil {
 		r.Violated("CheckDiskUsage/args", fnPos(p, cdu), "CheckDiskUsage no longer decides through checkThreshold")
 	} else {
-		a0, a1, a2 := ir.Path(call.Call.Args[0]), ir.Path(call.Call.Args[1]), ir.Path(call.Call.Args[2])
+		// through an inlined helper (`total, free, err := volumeSpace(path)`) the sizes arrive as phi(0 on the helper's
+		// error exit, the product): the product is what counts, provided the call is never reached with the constant
+		argPath := func(v ssa.Value) string {
+			ph, isPhi := v.(*ssa.Phi)
+			if !isPhi {
+				return ir.Path(v)
+			}
+			var leaves, real []ssa.Value
+			phiLeaves(ph, map[ssa.Value]bool{}, &leaves)
+			for _, l := range leaves {
+				if _, isC := l.(*ssa.Const); !isC {
+					real = append(real, l)
+				}
+			}
+			if len(real) != 1 {
+				return ir.Path(v)
+			}
+			constAtCall := false
+			ir.Reach([]ir.Pt{ir.Entry(cdu)}, ir.Opts{Observe: func(in ssa.Instruction, phiVal func(*ssa.Phi) (ssa.Value, bool)) {
+				if in == ssa.Instruction(call) {
+					if pv, known := phiVal(ph); known {
+						if _, isC := pv.(*ssa.Const); isC {
+							constAtCall = true
+						}
+					}
+				}
+			}})
+			if constAtCall {
+				return ir.Path(v) + " /* reaches the call as a constant on some path */"
+			}
+			return ir.Path(real[0])
+		}
+		a0, a1, a2 := argPath(call.Call.Args[0]), argPath(call.Call.Args[1]), ir.Path(call.Call.Args[2])
 		ok := strings.Contains(a0, ".Blocks") && strings.Contains(a0, ".Bsize") && strings.Contains(a1, ".Bavail") && strings.Contains(a1, ".Bsize") && a2 == "config.Get().MinSpaceRequired"
 		// result returned unchanged
 		retOK := false
